@@ -268,6 +268,8 @@ class Interp(Engine):
         g = st.frame.globs
         if name in g:
             return g[name]
+        if st.spec and name in self.spec_globals:
+            return self.spec_globals[name]
         if hasattr(builtins, name):
             return getattr(builtins, name)
         raise Outside("unbound name %s" % name)
@@ -438,7 +440,9 @@ class Interp(Engine):
                 yield from self.ev(e.body if side else e.orelse, s2)
 
     def ev_Compare(self, e, st):
-        for s, vs in self.ev_list([e.left] + list(e.comparators), st):
+        comps = [ast.Tuple(elts=c.elts, ctx=ast.Load()) if isinstance(c, ast.List) and isinstance(o, (ast.In, ast.NotIn))
+                 else c for c, o in zip(e.comparators, e.ops)]
+        for s, vs in self.ev_list([e.left] + comps, st):
             if isinstance(vs, Raised):
                 yield s, vs
                 continue
@@ -661,8 +665,8 @@ class Interp(Engine):
                 r = z3.If(adj, re_ + y, re_)
                 # derivation: y<0, re>0: x = y*qe + re = y*(qe+1) + (re - y) ... python wants remainder in (y, 0]:
                 # x = y*(qe - ... )  -- use the defining property instead to stay exact:
-                qf = self.fresh_term('q', z3.IntSort())
-                rf = self.fresh_term('r', z3.IntSort())
+                qf = self.fresh_term('q', z3.IntSort(), s)
+                rf = self.fresh_term('r', z3.IntSort(), s)
                 s.assume(x == y * qf + rf)
                 s.assume(z3.If(y > 0, z3.And(0 <= rf, rf < y), z3.And(y < rf, rf <= 0)))
                 q, r = qf, rf
@@ -828,6 +832,9 @@ class Interp(Engine):
         if name in ci.acc:
             yield st, V(ci.acc[name](v.t), dict(ci.fields)[name])
             return
+        if name == '__class__':
+            yield st, ci.pyclass
+            return
         attr = inspect_getattr_static(ci.pyclass, name)
         if attr is None:
             ga = inspect_getattr_static(ci.pyclass, '__getattr__')
@@ -886,16 +893,33 @@ class Interp(Engine):
 
         def norm(x, default):
             if x is None:
-                return default
+                return default, True
             t = self.term(x, INT)
             if is_concrete(x):
-                if x >= 0:
-                    return z3.If(t > n, n, t)
-                return z3.If(n + t < 0, 0, n + t)
-            return z3.If(t < 0, z3.If(n + t < 0, 0, n + t), z3.If(t > n, n, t))
-        a = norm(lo, z3.IntVal(0))
-        b2 = norm(hi, n)
-        ln = z3.If(b2 > a, b2 - a, 0)
+                if x == 0:
+                    return z3.IntVal(0), True
+                if x > 0:
+                    if self.entails(st, n >= x):
+                        return t, True
+                    return z3.If(t > n, n, t), False
+                if self.entails(st, n + t >= 0):
+                    return n + t, True
+                return z3.If(n + t < 0, 0, n + t), False
+            # symbolic bound: use it as is when it is provably within 0..len (keeps terms small)
+            if self.entails(st, z3.And(t >= 0, t <= n)):
+                return t, True
+            return z3.If(t < 0, z3.If(n + t < 0, 0, n + t), z3.If(t > n, n, t)), False
+        a, a_ok = norm(lo, z3.IntVal(0))
+        b2, b_ok = norm(hi, n)
+        if lo is None or (is_concrete(lo) and lo == 0):
+            ln = b2
+        elif hi is None and a_ok:
+            ln = n - a
+        elif self.entails(st, b2 >= a):
+            ln = b2 - a
+        else:
+            ln = z3.If(b2 > a, b2 - a, 0)
+        ln = z3.simplify(ln)
         return V(z3.SubSeq(v.t, a, ln), v.ty)
 
     def index(self, v, k, st, e=None):
@@ -980,6 +1004,8 @@ class Interp(Engine):
                     raise Outside("possibly negative symbolic index at line %s" % line)
             for s2, ok in self.branch(st, inrange, "L%s:idx?" % line):
                 if ok:
+                    if kind == 'list':
+                        self.assume_valid(res, s2)
                     yield s2, res
                 else:
                     yield s2, Raised(ExcVal(IndexError, origin=line))
